@@ -359,8 +359,14 @@ impl C10 {
         // 4. sum to zero
         let sw: f64 = w.iter().sum();
         rep.max(if case.f32m { "sum_w_rel_f32" } else { "sum_w_rel_f64" }, sw.abs() / (c_eff * n as f64));
-        if !(sw.abs() <= t.sum_rel * c_eff * n as f64) {
-            rep.fail("sum-to-zero", "svc-dual-feasibility", format!("{}: dual coefficients sum to {:e} (|w| = {}, C = {})", ctx, sw, w.len(), c_eff));
+        // every update subtracts a step from one coefficient and adds it to another (two roundings of values <= C);
+        // there is at most one update per tick of the hook (row processed / reprocess), one per row in `initialize`
+        // and n + 1 in `finish`. Judged with 4x that; never looser than the flat bound used before.
+        let eps_t = if case.f32m { f32::EPSILON as f64 } else { f64::EPSILON };
+        let sum_tol = (t.sum_rel * c_eff * n as f64).min(4.0 * eps_t * (ticks.get() as f64 + 3.0 * n as f64 + 8.0) * c_eff);
+        rep.max(if case.f32m { "sum_w_over_tol_f32" } else { "sum_w_over_tol_f64" }, sw.abs() / sum_tol);
+        if !(sw.abs() <= sum_tol) {
+            rep.fail("sum-to-zero", "svc-dual-feasibility", format!("{}: dual coefficients sum to {:e} (more than {:e}; |w| = {}, C = {})", ctx, sw, sum_tol, w.len(), c_eff));
         }
         // 5./6. kernel expansion and label rule on training + fresh rows
         let mut q: Vec<Vec<f64>> = xs.clone();
